@@ -216,6 +216,15 @@ def wait_until(pred, timeout, step=0.004):
     return False
 
 
+def collect(clients, idle):
+    """finished clients hand their still open connection over to the idle pool (exactly once)"""
+    for c in clients.values():
+        if c.done.is_set() and c.sock is not None:
+            if c.keep:
+                idle.append(c.sock)
+            c.sock = None
+
+
 def run_one(inst, s, sid):
     org, sq = inst.org, inst.sq
     reqs = s["reqs"]
@@ -238,8 +247,7 @@ def run_one(inst, s, sid):
                 if seq not in claimed:
                     claimed.add(seq)
                     lookup_of[i] = seq
-            if c.done.is_set() and c.keep and c.sock is not None:
-                idle.append(c.sock)
+            collect(clients, idle)
         elif e[0] == "r":
             i = e[1]
             seq = lookup_of.pop(i, None)
@@ -247,21 +255,19 @@ def run_one(inst, s, sid):
                 open(os.path.join(inst.dir, "rel.%d" % seq), "w").close()
                 clients[i].done.wait(3.0)
                 time.sleep(0.02)        # queued requests resumed by the same helper reply
-                for j, c in clients.items():
-                    if c.done.is_set() and c.keep and c.sock is not None and c.sock not in idle:
-                        idle.append(c.sock)
+                collect(clients, idle)
         else:
             time.sleep(TICK_SLEEP)
     for i, seq in list(lookup_of.items()):
         open(os.path.join(inst.dir, "rel.%d" % seq), "w").close()
     for c in clients.values():
         c.done.wait(3.0)
-    for c in clients.values():
-        if c.sock is not None:
-            try:
-                c.sock.close()
-            except OSError:
-                pass
+    collect(clients, idle)
+    for sk in idle:
+        try:
+            sk.close()
+        except OSError:
+            pass
     time.sleep(0.05)
     # observations
     arrivals = {}
